@@ -15,6 +15,14 @@ CHECKS = {
              'Comments are not required to survive. Known defects are listed in known_findings.json.',
         technique='deviation-bounded exhaustive input enumeration on the real reader/writer + reference-model comparison',
         ref='3/C01'),
+    'C19': dict(
+        text='Explicit-state breadth-first search over operation histories on the real Python ARRAY/LIST/BAG/SET classes: 1224 constructions '
+             '(bounds -1..3 x 0..4/unbounded x UNIQUE x OPTIONAL x 5 base types), every item assignment/add/read/query in every distinct state to depth 6 '
+             '(thorough 9), each step compared with a list/multiset/set reference model of EXPRESS semantics; state spaces of most bounded constructions are closed.',
+        note='Trusted: the reference model checks/c19_model.py (ISO 10303-11 clause 8.2 as restated by the property; weaker readings listed in the evidence '
+             'assumptions), CPython. Known defects are listed in known_findings.json.',
+        technique='explicit-state BFS over operation histories on the real objects + reference-model comparison',
+        ref='3/C19'),
 }
 
 
